@@ -35,11 +35,15 @@ def tuples(tier, seed):
     for a0, a1 in itertools.product([1, 2, 4, 8], [1, 4, 8]):
         for ea in (16, 32):
             out.append((2, (a0, a1), 0, ea))
+    for a0, a1 in itertools.product([1, 2, 4, 8], [1, 2, 4]):
+        for ea in (2, 4, 8):
+            if ea > a1:
+                out.append((2, (a0, a1), 0, ea))
     for al in itertools.product([1, 2, 4, 8, 16], repeat=3):
         for p in (0, 1, 2):
             out.append((3, al, p, 0))
     boundary = [(2, (1, 8), 0, 0), (2, (8, 1), 0, 0), (2, (1, 16), 0, 0), (2, (4, 8), 1, 0), (2, (8, 8), 2, 0), (2, (1, 8), 0, 16), (2, (4, 8), 0, 16),
-                (2, (16, 1), 0, 0), (3, (1, 8, 2), 0, 0), (3, (8, 1, 4), 2, 0), (2, (1, 4), 4, 0), (2, (2, 8), 4, 0)]
+                (2, (16, 1), 0, 0), (2, (4, 4), 0, 8), (2, (2, 2), 0, 4), (2, (1, 1), 0, 2), (2, (8, 4), 0, 8), (3, (1, 8, 2), 0, 0), (3, (8, 1, 4), 2, 0), (2, (1, 4), 4, 0), (2, (2, 8), 4, 0)]
     if tier == 'thorough':
         return out, set(out)
     rest = [t for t in out if t not in boundary]
@@ -76,12 +80,13 @@ def build(tier, seed):
                         sample={'members': kk, 'aligns': list(al), 'pack': p, 'member_aligned': ea}))
         for a in (0, 1, 2, 4, 8, 16, 32, 64):
             gen.append('#[kani::proof] fn blob_exact_a%d() { blob_exact::<%d>() }' % (a, a))
-            hs.append(H('blob_exact_a%d' % a, desc='helpers::blob exact size/alignment, align %d, size <= 65536, ffi_safe and namespaces symbolic' % a, sample={'blob_align': a, 'size': '<=65536'}))
+            hs.append(H('blob_exact_a%d' % a, desc='helpers::blob exact size/alignment, align %d, size <= 65536, ffi_safe and namespaces symbolic' % a, sample={'blob_align': a, 'size': '<=65536'},
+                        may_unsat=('plain array',) if a > 4 else ()))
             if a >= 1 and a <= 8:
                 gen.append('#[kani::proof] fn blob_padding_a%d() { blob_padding::<%d>() }' % (a, a))
-                hs.append(H('blob_padding_a%d' % a, desc='padding blob ends where the next member starts, align %d, any start offset/size <= 4096' % a, sample={'padding_align': a}))
+                hs.append(H('blob_padding_a%d' % a, desc='padding blob ends where the next member starts, align %d, any start offset/size <= 4096' % a, sample={'padding_align': a}, may_unsat=('padding starts unaligned',) if a == 1 else ()))
         hs.append(H('layout_for_size_is_largest_pow2_divisor', desc='Layout::for_size_internal', sample='ptr size 4|8, size <= 2^20'))
-        hs.append(H('align_to_is_least_multiple', desc='struct_layout::align_to', sample='size <= 2^40, align <= 4096'))
+        hs.append(H('align_to_is_least_multiple', desc='struct_layout::align_to', sample='size <= 2^40, align in {0,1,2,3,8,24,64}'))
         har = open(os.path.join(G, 'harness', 'c02.rs')).read().replace('/*GENERATED*/', '\n    '.join(gen))
         text = (pre + '\n' + m.group(0) + '\n' +
                 'pub mod layout_mod { use super::*; ' + layout + '}\npub(crate) use layout_mod::Layout;\n' +
